@@ -94,6 +94,11 @@ func c20Find(name string) *c20Scenario {
 			return s
 		}
 	}
+	for _, s := range c20GlobalScenarios { // run by concglobal only (c20global.go)
+		if s.name == name {
+			return s
+		}
+	}
 	return nil
 }
 
@@ -1854,6 +1859,29 @@ func c20TLSConn(r *rng, g, iters int) string {
 			}
 		})
 	}
+	// an application that asks for the connection state now and then and keeps the channel binding it was given:
+	// what ConnectionState returned must not change afterwards (nor race with the other calls)
+	spawn("state poller", func(jr *rng) {
+		var val, cp []byte
+		for atomic.LoadInt32(&closing) == 0 {
+			cs := cli.ConnectionState()
+			if !cs.HandshakeComplete {
+				setFail("connection-state-not-complete")
+				return
+			}
+			if val == nil {
+				val, cp = cs.TLSUnique, append([]byte{}, cs.TLSUnique...)
+			}
+			if !bytes.Equal(val, cp) || !bytes.Equal(cs.TLSUnique, cp) {
+				setFail("tlsunique-changed")
+				return
+			}
+			for n := jr.intn(8); n > 0; n-- {
+				runtime.Gosched()
+			}
+			time.Sleep(200 * time.Microsecond)
+		}
+	})
 	// closers: both ends, the client end twice, while the writers and readers are busy
 	closeErrs := make([]error, 3)
 	closed := make(chan struct{})
@@ -1992,7 +2020,13 @@ func genC20(r *rng, tier string, emit func(string)) {
 			}
 			return 12
 		}
-		if name == "renegrefuse" || name == "renegbig" || name == "warnflood" || name == "lrucache" { // connections: 1 + iters/4 (lrucache: 200*iters cache calls per goroutine)
+		if name == "tmplissuers" || name == "csrtmpl" { // rounds (one shared template per round)
+			if thorough {
+				return 20
+			}
+			return 8
+		}
+		if name == "renegrefuse" || name == "renegbig" || name == "warnflood" || name == "lrucache" || name == "renegwrite" || name == "renegunique" { // connections: 1 + iters/4 (lrucache: 200*iters cache calls per goroutine)
 			if thorough {
 				return 40
 			}
